@@ -82,6 +82,7 @@ def check(ctx, res) -> None:
     _header_keyword_rule(ctx, res)
     _package_precedence_rule(ctx, res)
     _shared_global_rule(ctx, res)
+    _same_pyname_strength_rule(ctx, res)
     from .c14 import line_table_rule
 
     line_table_rule(ctx, res, "R02.11")
@@ -469,3 +470,32 @@ def _shared_global_rule(ctx, res, rule: str = "R02.13") -> None:
             "_ScopeVisitor._Global constructs a fresh binding for every `global n` whose n the module does not assign: two functions declaring the "
             "same global get two unrelated bindings, so find-occurrences from one misses the other and rename changes only one of them",
             function=h.qualname)
+
+
+def _same_pyname_strength_rule(ctx, res, rule: str = "R02.14") -> None:
+    """R02.14: two names reached through imports are the same binding only if they agree on BOTH the definition
+    location and the object (an imported module and a variable on its first line share a location; a function and its
+    same-named parameter share a line).  The deciding return of same_pyname is a conjunction containing both equalities."""
+    idx = ctx.idx
+    f = idx.need_func("rope.refactor.occurrences.same_pyname")
+    ps = param_names(f.node)[:2]
+    rets = [r for r in walk_local(f.node) if isinstance(r, ast.Return) and r.value is not None and not isinstance(r.value, ast.Constant)]
+    if not rets:
+        raise AnalysisError("anchor=same_pyname: deciding return not found")
+    for k, r in enumerate(rets, 1):
+        conj = list(r.value.values) if isinstance(r.value, ast.BoolOp) and isinstance(r.value.op, ast.And) else [r.value]
+        have = set()
+        for t in conj:
+            if isinstance(t, ast.Compare) and len(t.ops) == 1 and isinstance(t.ops[0], ast.Eq):
+                a, b = t.left, t.comparators[0]
+                if isinstance(a, ast.Call) and isinstance(b, ast.Call) and call_name(a) == call_name(b) and \
+                        isinstance(a.func, ast.Attribute) and isinstance(b.func, ast.Attribute) and \
+                        {getattr(a.func.value, "id", None), getattr(b.func.value, "id", None)} == set(ps):
+                    have.add(call_name(a))
+        need = {"get_definition_location", "get_object"}
+        missing = need - have
+        res.add(rule, f"same_pyname|decision#{k}", not missing, f"{f.unit.rel}:{r.lineno}",
+                "the decision compares definition location and object of both names" if not missing else
+                f"same_pyname decides on {sorted(have) or 'nothing'} only (missing {sorted(missing)}): two different bindings that share a definition "
+                "location (an imported module and a variable on its first line; a function and its same-named parameter) are merged, so "
+                "find-occurrences reports foreign tokens and the answer depends on the query point", function=f.qualname)
